@@ -125,7 +125,14 @@ impl Prop for C05 {
         if *mname != "assign" { invalid.push(("mutate-immutable", mtext.replace('$', "a"), vec!["a".into()], "err")); }
       }
       match vk.name {
-        "matrix" | "matrix2" => { invalid.push(("index-out-of-range", "b[99] = 1".into(), vec!["b".into()], "err")); invalid.push(("kind-error", "b[1] = \"s\"".into(), vec!["b".into()], "err")); invalid.push(("opassign-kind-error", "b += \"s\"".into(), vec!["b".into()], "err")); }
+        "matrix" | "matrix2" => {
+          // an index list / range whose LAST member is one past the end (a partial write before the failure would show)
+          let n = if vk.name == "matrix" { 3 } else { 4 };
+          invalid.push(("index-list-partly-out", format!("b[[1 {}]] = 0", n + 1), vec!["b".into()], "err"));
+          invalid.push(("index-range-partly-out", format!("b[2..={}] = 0", n + 1), vec!["b".into()], "err"));
+          invalid.push(("index-list-partly-out-opassign", format!("b[[1 2 {}]] += 1", n + 1), vec!["b".into()], "err"));
+          if vk.name == "matrix2" { invalid.push(("index-2d-partly-out", "b[1,[1 3]] = 0".into(), vec!["b".into()], "err")); invalid.push(("index-2d-rows-partly-out", "b[[1 3],1] = 0".into(), vec!["b".into()], "err")); invalid.push(("index-2d-allrows-partly-out", "b[:,[2 3]] = 0".into(), vec!["b".into()], "err")); }
+          invalid.push(("index-out-of-range", "b[99] = 1".into(), vec!["b".into()], "err")); invalid.push(("kind-error", "b[1] = \"s\"".into(), vec!["b".into()], "err")); invalid.push(("opassign-kind-error", "b += \"s\"".into(), vec!["b".into()], "err")); }
         "record" => { invalid.push(("missing-field", "b.nofield = 1".into(), vec!["b".into()], "err")); }
         "tuple" => { invalid.push(("tuple-index-out-of-range", "b.9 = 1".into(), vec!["b".into()], "err")); }
         "table" => { invalid.push(("missing-column", "b.nocol = [1; 2]".into(), vec!["b".into()], "err")); invalid.push(("column-length", "b.a = [1; 2; 3]".into(), vec!["b".into()], "err")); }
